@@ -9,7 +9,10 @@ signatures, votes naming another id, votes declaring another view, the collector
 signatures riding on a vote message and repeated votes of one member never help.
 
 All theorems quantify over every validator-set function `vals`, every collector address and every
-history of proposal and vote messages (`run … (init self) evs`).
+history of proposal and vote messages (`run … (init self) evs`).  The section on restarts does the same for
+a collector rebuilt from a ledger (`run … (restart self start tip just) evs`, for every StartHeight, tip and
+clean certificates in the last blocks): there the vote log has a second writer, the constructor, which
+re-loads the ledger's certificates; each is held for the block it certifies and the tip block has none.
 -/
 namespace XV.C14c
 open XV.Safety XV.Collect
@@ -192,6 +195,61 @@ theorem handleProp_frame (vals : Int → List Nat) (s : State) (p : PropMsg) :
     · exact acceptProp_frame _ p
     · exact ⟨rfl, rfl, [], by simp⟩
 
+/-- The id of the instance's genesis never changes. -/
+theorem insertNode_genesis (s : State) (p : PropMsg) : (insertNode s p).genesis = s.genesis := by
+  unfold insertNode
+  split
+  · rfl
+  · simp only []
+    split
+    · rfl
+    · split <;> rfl
+
+theorem acceptProp_genesis (s : State) (p : PropMsg) : (acceptProp s p).genesis = s.genesis := by
+  unfold acceptProp
+  split
+  · rfl
+  · simp only []
+    split
+    · rfl
+    · split
+      · rfl
+      · split
+        · rfl
+        · exact insertNode_genesis _ p
+
+theorem handleProp_genesis (vals : Int → List Nat) (s : State) (p : PropMsg) :
+    (handleProp vals s p).genesis = s.genesis := by
+  unfold handleProp
+  split
+  · rfl
+  · simp only []
+    split
+    · exact acceptProp_genesis _ p
+    · rfl
+
+theorem handleVote_genesis (vals : Int → List Nat) (s : State) (m : VoteMsg) :
+    (handleVote vals s m).1.genesis = s.genesis := by
+  rcases handleVote_cases vals s m with ⟨hs, _⟩ | ⟨e, rest, nd, _, _, _, _, _, _, _, hst, _⟩
+  · rw [hs]
+  · rw [hst]
+    simp only [collectVote]
+    split <;> split <;> simp [declare]
+
+theorem run_genesis (vals : Int → List Nat) (evs : List Ev) (s : State) : (run vals s evs).genesis = s.genesis := by
+  induction evs generalizing s with
+  | nil => rfl
+  | cons ev evs ih =>
+    cases ev with
+    | vote m =>
+      have := ih (handleVote vals s m).1
+      simp only [run, List.foldl_cons, step] at this ⊢
+      rw [this, handleVote_genesis]
+    | prop p =>
+      have := ih (handleProp vals s p)
+      simp only [run, List.foldl_cons, step] at this ⊢
+      rw [this, handleProp_genesis]
+
 /-! ### the invariant of the vote log, over all histories -/
 
 theorem firstSigs_append (id : Nat) (vs ws : List VoteMsg) :
@@ -210,20 +268,22 @@ theorem mem_firstSigs_last (vs : List VoteMsg) (m : VoteMsg) (e : Entry) (rest :
   apply List.mem_append_right
   simp [firstSigs, h]
 
-/-- Every vote stored for a proposal id arrived as the FIRST signature of a vote message naming that id,
-verifies for it, is not the collector's own, comes from a member of the validator set in force for the
-view of the local proposal, and no member is stored twice. -/
-def LogOk (vals : Int → List Nat) (votes : List VoteMsg) (s : State) : Prop :=
+/-- Every vote stored for a proposal id arrived as the FIRST signature of a vote message naming that id - or
+is one of the entries `base id` the node held for that very id before the history began (nothing after
+`init`; the certificate the ledger carries for the block after a restart) -, verifies for it, is not the
+collector's own, comes from a member of the validator set in force for the view of the local proposal,
+and no member is stored twice. -/
+def LogOk (base : Nat → List Entry) (vals : Int → List Nat) (votes : List VoteMsg) (s : State) : Prop :=
   ∀ id es, logOf s.log id = some es →
     ∃ nd, findNode s.nodes id = some nd ∧ (es.map (·.addr)).Nodup ∧
-      ∀ e ∈ es, e.valid = true ∧ e.addr ≠ s.self ∧ e.addr ∈ vals nd.view ∧ e ∈ firstSigs id votes
+      ∀ e ∈ es, e.valid = true ∧ e.addr ≠ s.self ∧ e.addr ∈ vals nd.view ∧ e ∈ base id ++ firstSigs id votes
 
-theorem logOk_init (vals : Int → List Nat) (self : Nat) : LogOk vals [] (init self) := by
+theorem logOk_init (vals : Int → List Nat) (self : Nat) : LogOk (fun _ => []) vals [] (init self) := by
   intro id es h
   simp [init, logOf] at h
 
-theorem logOk_prop (vals : Int → List Nat) (votes : List VoteMsg) (s : State) (p : PropMsg)
-    (h : LogOk vals votes s) : LogOk vals votes (handleProp vals s p) := by
+theorem logOk_prop (base : Nat → List Entry) (vals : Int → List Nat) (votes : List VoteMsg) (s : State) (p : PropMsg)
+    (h : LogOk base vals votes s) : LogOk base vals votes (handleProp vals s p) := by
   obtain ⟨hlog, hself, l, hnodes⟩ := handleProp_frame vals s p
   intro id es hes
   rw [hlog] at hes
@@ -233,11 +293,11 @@ theorem logOk_prop (vals : Int → List Nat) (votes : List VoteMsg) (s : State) 
   rw [hself]
   exact hall e he
 
-theorem logOk_vote (vals : Int → List Nat) (votes : List VoteMsg) (s : State) (m : VoteMsg)
-    (h : LogOk vals votes s) : LogOk vals (votes ++ [m]) (handleVote vals s m).1 := by
-  have hmono : ∀ id e, e ∈ firstSigs id votes → e ∈ firstSigs id (votes ++ [m]) := by
-    intro id e he; rw [firstSigs_append]; exact List.mem_append_left _ he
-  have hold : LogOk vals (votes ++ [m]) s := by
+theorem logOk_vote (base : Nat → List Entry) (vals : Int → List Nat) (votes : List VoteMsg) (s : State) (m : VoteMsg)
+    (h : LogOk base vals votes s) : LogOk base vals (votes ++ [m]) (handleVote vals s m).1 := by
+  have hmono : ∀ id e, e ∈ base id ++ firstSigs id votes → e ∈ base id ++ firstSigs id (votes ++ [m]) := by
+    intro id e he; rw [firstSigs_append, ← List.append_assoc]; exact List.mem_append_left _ he
+  have hold : LogOk base vals (votes ++ [m]) s := by
     intro id es hes
     obtain ⟨nd, hnd, hnodup, hall⟩ := h id es hes
     exact ⟨nd, hnd, hnodup, fun e he => ⟨(hall e he).1, (hall e he).2.1, (hall e he).2.2.1, hmono id e (hall e he).2.2.2⟩⟩
@@ -293,22 +353,22 @@ theorem logOk_vote (vals : Int → List Nat) (votes : List VoteMsg) (s : State) 
               exact hall x (by simpa [hl] using hx)
           · simp only [List.mem_singleton] at hx
             subst hx
-            exact ⟨hval, hself, by rw [hview]; exact hmem, mem_firstSigs_last votes m x rest hsigs⟩
+            exact ⟨hval, hself, by rw [hview]; exact hmem, List.mem_append_right _ (mem_firstSigs_last votes m x rest hsigs)⟩
       · rw [logOf_setLog_other _ _ _ _ hid] at hes
         exact hold id es hes
 
 /-- The invariant holds after every history of proposal and vote messages. -/
-theorem logOk_run (vals : Int → List Nat) (evs : List Ev) (votes : List VoteMsg) (s : State)
-    (h : LogOk vals votes s) : LogOk vals (votes ++ votesOf evs) (run vals s evs) := by
+theorem logOk_run (base : Nat → List Entry) (vals : Int → List Nat) (evs : List Ev) (votes : List VoteMsg) (s : State)
+    (h : LogOk base vals votes s) : LogOk base vals (votes ++ votesOf evs) (run vals s evs) := by
   induction evs generalizing votes s with
   | nil => simpa [run, votesOf] using h
   | cons ev evs ih =>
     cases ev with
     | vote m =>
-      have := ih (votes ++ [m]) (handleVote vals s m).1 (logOk_vote vals votes s m h)
+      have := ih (votes ++ [m]) (handleVote vals s m).1 (logOk_vote base vals votes s m h)
       simpa [run, votesOf, step, List.append_assoc] using this
     | prop p =>
-      have := ih votes (handleProp vals s p) (logOk_prop vals votes s p h)
+      have := ih votes (handleProp vals s p) (logOk_prop base vals votes s p h)
       simpa [run, votesOf, step] using this
 
 theorem run_self (vals : Int → List Nat) (evs : List Ev) (s : State) : (run vals s evs).self = s.self := by
@@ -339,21 +399,56 @@ theorem mem_validMembersBut (c : Nat) (vals : List Nat) (es : List Entry) (e : E
   refine ⟨List.mem_map.mpr ⟨e, List.mem_filter.mpr ⟨he, by simp [hm, hv]⟩, rfl⟩, by simpa using hc⟩
 
 /-- A log that satisfies the invariant has at most as many entries as there are distinct members,
-besides the collector, with a valid vote among the arrived votes. -/
-theorem log_le_supporters (vals : Int → List Nat) (votes : List VoteMsg) (s : State) (id : Nat)
-    (es : List Entry) (nd : Node) (h : LogOk vals votes s) (hes : logOf s.log id = some es)
+besides the collector, with a valid vote among the arrived votes and the entries held for the id before. -/
+theorem log_le_supporters (base : Nat → List Entry) (vals : Int → List Nat) (votes : List VoteMsg) (s : State) (id : Nat)
+    (es : List Entry) (nd : Node) (h : LogOk base vals votes s) (hes : logOf s.log id = some es)
     (hnd : findNode s.nodes id = some nd) :
-    es.length ≤ (validMembersBut s.self (vals nd.view) (firstSigs id votes)).length := by
+    es.length ≤ (validMembersBut s.self (vals nd.view) (base id ++ firstSigs id votes)).length := by
   obtain ⟨nd', hnd', hnodup, hall⟩ := h id es hes
   have : nd' = nd := by rw [hnd] at hnd'; exact (Option.some.inj hnd').symm
   subst this
-  have := List.Nodup.length_le_of_subset hnodup (l₂ := validMembersBut s.self (vals nd'.view) (firstSigs id votes)) (by
+  have := List.Nodup.length_le_of_subset hnodup (l₂ := validMembersBut s.self (vals nd'.view) (base id ++ firstSigs id votes)) (by
     intro a ha
     obtain ⟨e, he, hea⟩ := List.mem_map.mp ha
     subst hea
     obtain ⟨h1, h2, h3, h4⟩ := hall e he
     exact mem_validMembersBut _ _ _ e h4 h1 h3 h2)
   simpa using this
+
+/-- **Collection-side C14, from any state whose vote log satisfies the invariant** (the state after `init`,
+the state after a restart on a ledger).  After ANY history of proposal and vote messages, a vote message
+makes the collector declare a quorum (advance its view / move HighQC) only if the proposal it names is in the
+local tree under the view the vote declares and valid signatures over that id - arrived as first signature of
+a vote message naming it, or held for that very id before the history began - come from at least
+`n - ⌊(n-1)/3⌋ - 1` distinct members, besides the collector, of the validator set in force for the view of that
+local proposal. -/
+theorem declared_quorum_from (base : Nat → List Entry) (vals : Int → List Nat) (s0 : State)
+    (hs0 : LogOk base vals [] s0) (evs : List Ev) (m : VoteMsg)
+    (h : (handleVote vals (run vals s0 evs) m).2.2 = true) :
+    ∃ nd, lookup (run vals s0 evs) m.id = some nd ∧ nd.view = m.view ∧
+      quorum (vals nd.view).length ≤
+        (validMembersBut s0.self (vals nd.view) (base m.id ++ firstSigs m.id (votesOf evs ++ [m]))).length := by
+  have hinv := logOk_run base vals evs [] s0 hs0
+  simp only [List.nil_append] at hinv
+  have hinv' := logOk_vote base vals (votesOf evs) _ m hinv
+  rcases handleVote_cases vals (run vals s0 evs) m with ⟨_, hf⟩ | ⟨e, rest, nd, _, hmem, _, _, hnd, hview, _, hst, hfl⟩
+  · rw [hf] at h; exact absurd h (by simp)
+  · refine ⟨nd, hnd, hview, ?_⟩
+    rw [hfl] at h
+    obtain ⟨es, hes, _, hthr⟩ := collectVote_declared _ _ _ _ _ _ h
+    rw [← hst] at hes
+    have hfn : findNode (handleVote vals (run vals s0 evs) m).1.nodes m.id = some nd := by
+      rw [hst, (collectVote_frame _ _ _ _ _ _).1]; exact lookup_findNode _ _ _ hnd
+    have hle := log_le_supporters base vals _ _ m.id es nd hinv' hes hfn
+    have hself : (handleVote vals (run vals s0 evs) m).1.self = s0.self := by
+      rw [hst, (collectVote_frame _ _ _ _ _ _).2.1, run_self]
+    rw [hself] at hle
+    have hn : 1 ≤ (vals nd.view).length := by
+      rw [hview]; exact List.length_pos_of_mem hmem
+    rw [← hview] at hthr
+    have := (XV.C14.threshold_value es.length (vals nd.view).length hn).mp hthr
+    unfold quorum
+    omega
 
 /-- **Collection-side C14.**  After ANY history of proposal and vote messages, a vote message makes the
 collector declare a quorum (advance its view / move HighQC) only if the proposal it names is in the local
@@ -365,27 +460,7 @@ theorem declared_quorum_is_genuine (vals : Int → List Nat) (self : Nat) (evs :
     ∃ nd, lookup (run vals (init self) evs) m.id = some nd ∧ nd.view = m.view ∧
       quorum (vals nd.view).length ≤
         (validMembersBut self (vals nd.view) (firstSigs m.id (votesOf evs ++ [m]))).length := by
-  have hinv := logOk_run vals evs [] (init self) (logOk_init vals self)
-  simp only [List.nil_append] at hinv
-  have hinv' := logOk_vote vals (votesOf evs) _ m hinv
-  rcases handleVote_cases vals (run vals (init self) evs) m with ⟨_, hf⟩ | ⟨e, rest, nd, _, hmem, _, _, hnd, hview, _, hst, hfl⟩
-  · rw [hf] at h; exact absurd h (by simp)
-  · refine ⟨nd, hnd, hview, ?_⟩
-    rw [hfl] at h
-    obtain ⟨es, hes, _, hthr⟩ := collectVote_declared _ _ _ _ _ _ h
-    rw [← hst] at hes
-    have hfn : findNode (handleVote vals (run vals (init self) evs) m).1.nodes m.id = some nd := by
-      rw [hst, (collectVote_frame _ _ _ _ _ _).1]; exact lookup_findNode _ _ _ hnd
-    have hle := log_le_supporters vals _ _ m.id es nd hinv' hes hfn
-    have hself : (handleVote vals (run vals (init self) evs) m).1.self = self := by
-      rw [hst, (collectVote_frame _ _ _ _ _ _).2.1, run_self]; rfl
-    rw [hself] at hle
-    have hn : 1 ≤ (vals nd.view).length := by
-      rw [hview]; exact List.length_pos_of_mem hmem
-    rw [← hview] at hthr
-    have := (XV.C14.threshold_value es.length (vals nd.view).length hn).mp hthr
-    unfold quorum
-    omega
+  simpa [init] using declared_quorum_from (fun _ => []) vals (init self) (logOk_init vals self) evs m h
 
 /-- The storing half moves HighQC and the view exactly when it declares the quorum. -/
 theorem collectVote_effect (n : Nat) (s : State) (id : Nat) (dview : Int) (e : Entry) (nd : Node) :
@@ -555,9 +630,9 @@ theorem declared_certificate_accepted (vals : Int → List Nat) (self : Nat) (ev
       logOf (handleVote vals (run vals (init self) evs) m).1.log m.id = some es ∧
       checkProposal (vals nd.view) es = .accept ∧ (∀ e ∈ es, e.addr ≠ self) ∧
       quorum (vals nd.view).length ≤ (validMembersBut self (vals nd.view) es).length := by
-  have hinv := logOk_run vals evs [] (init self) (logOk_init vals self)
+  have hinv := logOk_run (fun _ => []) vals evs [] (init self) (logOk_init vals self)
   simp only [List.nil_append] at hinv
-  have hinv' := logOk_vote vals (votesOf evs) _ m hinv
+  have hinv' := logOk_vote (fun _ => []) vals (votesOf evs) _ m hinv
   rcases handleVote_cases vals (run vals (init self) evs) m with ⟨_, hf⟩ | ⟨e, rest, nd, _, hmem, _, _, hnd, hview, _, hst, hfl⟩
   · rw [hf] at h; exact absurd h (by simp)
   · rw [hfl] at h
@@ -586,10 +661,13 @@ theorem declared_certificate_accepted (vals : Int → List Nat) (self : Nat) (ev
 /-- What the node puts into its next proposal message (`ProcessProposal` → `reloadJustifyQC`) and what
 `GetCompleteHighQC` answers are the same votes: the log stored for HighQC. -/
 theorem nextJustify_is_cert (s : State) (id : Nat) (es : List Entry) (h : nextJustify s = some (id, es))
-    (hid : id ≠ 0) : cert s = (id, es) := by
+    (hid : id ≠ s.genesis) : cert s = (id, es) := by
   unfold nextJustify at h
   split at h
-  · simp only [Option.some.injEq, Prod.mk.injEq] at h; exact absurd h.1.symm hid
+  · rename_i hg
+    simp only [Option.some.injEq, Prod.mk.injEq] at h
+    have hg' : s.high.id = s.genesis := by simpa using hg
+    exact absurd (h.1 ▸ hg') hid
   · cases hl : logOf s.log s.high.id with
     | none => simp [hl] at h
     | some es' =>
@@ -611,8 +689,10 @@ theorem declared_next_proposal_carries_quorum (vals : Int → List Nat) (self : 
       quorum (vals nd.view).length ≤ (validMembersBut self (vals nd.view) es).length := by
   obtain ⟨nd, es, hnd, hes, hacc, _, hq⟩ := declared_certificate_accepted vals self evs m h
   refine ⟨nd, es, hnd, ?_, hacc, hq⟩
+  have hg : (handleVote vals (run vals (init self) evs) m).1.genesis = 0 := by
+    rw [handleVote_genesis, run_genesis]; rfl
   unfold nextJustify
-  rw [hmove]
+  rw [hmove, hg]
   have : (m.id == 0) = false := by simpa using hid
   simp [this, hes]
 
@@ -698,7 +778,7 @@ HighQC nowhere but to that proposal, and only if the justify declares that propo
 accepted by `CheckProposal` against the validator set in force for that view (the view of the LOCAL
 proposal, not a view the unsigned justify header chooses). -/
 theorem justify_checked_against_true_view (vals : Int → List Nat) (s : State) (p : PropMsg) (nd : Node)
-    (hp : p.parent ≠ 0) (hnd : lookup s p.parent = some nd) (hmove : (handleProp vals s p).high ≠ s.high) :
+    (hp : p.parent ≠ s.genesis) (hnd : lookup s p.parent = some nd) (hmove : (handleProp vals s p).high ≠ s.high) :
     (handleProp vals s p).high = nd ∧ nd.view = p.pview ∧ checkProposal (vals nd.view) p.just = .accept := by
   unfold handleProp at hmove ⊢
   split at hmove
@@ -712,7 +792,7 @@ theorem justify_checked_against_true_view (vals : Int → List Nat) (s : State) 
       rw [if_neg hk, if_pos hj]
       have hj' := hj
       unfold justifyOk at hj'
-      have hp' : (p.parent == 0) = false := by simpa using hp
+      have hp' : (p.parent == ({ s with known := p.id :: s.known } : State).genesis) = false := by simpa using hp
       rw [hp', hnd1] at hj'
       simp only [Bool.false_eq_true, ↓reduceIte] at hj'
       split at hj'
@@ -731,7 +811,7 @@ theorem justify_checked_against_true_view (vals : Int → List Nat) (s : State) 
 
 /-- `justify_checked_against_true_view`, stated for the proposal handler as it was found. -/
 def justify_checked_against_true_view_as_found_statement : Prop :=
-  ∀ (vals : Int → List Nat) (s : State) (p : PropMsg) (nd : Node), p.parent ≠ 0 → lookup s p.parent = some nd →
+  ∀ (vals : Int → List Nat) (s : State) (p : PropMsg) (nd : Node), p.parent ≠ s.genesis → lookup s p.parent = some nd →
     (handlePropAsFound vals s p).high ≠ s.high → checkProposal (vals nd.view) p.just = .accept
 
 /-! ### the code as found: three defects of the vote handler, refuted statements -/
@@ -802,6 +882,155 @@ theorem justify_declared_view_as_found_counterexample : ¬ justify_checked_again
   revert this
   decide
 
+/-! ### a collector restarted on a ledger -/
+
+/-- The restart state proper (the root of the rebuilt tree is not the genesis of the instance) needs a tip
+above StartHeight and at least three blocks below it; the root is the block `tip - 3`. -/
+theorem restarted_spec (start tip : Nat) (h : restarted start tip = true) :
+    3 ≤ tip ∧ start < tip ∧ rootHeight start tip = tip - 3 := by
+  unfold restarted rootHeight at h
+  unfold rootHeight
+  by_cases h1 : tip ≤ start
+  · simp [h1] at h
+  · by_cases h2 : tip < 3
+    · simp [h1, h2] at h
+      omega
+    · simp [h1, h2]
+      omega
+
+theorem findNode_range_map (f : Nat → Node) (hf : ∀ i, (f i).id = i) (n k : Nat) (hk : k < n) :
+    findNode ((List.range n).map f) k = some (f k) := by
+  induction n with
+  | zero => omega
+  | succ n ih =>
+    rw [List.range_succ, List.map_append]
+    by_cases hkn : k < n
+    · exact findNode_append _ _ _ _ (ih hkn)
+    · have hkn' : k = n := by omega
+      subst hkn'
+      unfold findNode
+      rw [List.find?_append]
+      have hnone : ((List.range k).map f).find? (fun nd => nd.id == k) = none := by
+        rw [List.find?_eq_none]
+        intro x hx
+        obtain ⟨i, hi, hxi⟩ := List.mem_map.mp hx
+        subst hxi
+        have : i < k := List.mem_range.mp hi
+        simp [hf i]; omega
+      rw [hnone]
+      simp [hf k]
+
+/-- the entries a restarted collector holds for proposal `id` before any message arrives -/
+def loadedFor (self start tip : Nat) (just : Nat → List Entry) (id : Nat) : List Entry :=
+  (logOf (restart self start tip just).log id).getD []
+
+theorem mem_loadOne (start : Nat) (just : Nat → List Entry) (b : Nat) (c : Nat × List Entry)
+    (h : c ∈ loadOne start just b) : start < b ∧ c = (b - 1, just b) := by
+  unfold loadOne at h
+  split at h
+  · rename_i hb
+    simp only [List.mem_singleton] at h
+    exact ⟨hb.1, h⟩
+  · simp at h
+
+/-- Whatever a restarted collector holds for a proposal id is the justify certificate stored in one of the
+last three ledger blocks, and it is held for the PREDECESSOR of the block that stores it - the block the
+certificate certifies -, never for another block. -/
+theorem restart_log_mem (self start tip : Nat) (just : Nat → List Entry) (id : Nat) (es : List Entry)
+    (h : logOf (restart self start tip just).log id = some es) :
+    restarted start tip = true ∧ ∃ b, (b = tip ∨ b = tip - 1 ∨ b = tip - 2) ∧ start < b ∧
+      id = relId (rootHeight start tip) (b - 1) ∧ es = just b := by
+  unfold logOf at h
+  obtain ⟨p, hp, hpe⟩ := Option.map_eq_some_iff.mp h
+  have hmem := List.mem_of_find?_eq_some hp
+  have hid : p.1 = id := by simpa using List.find?_some hp
+  simp only [restart] at hmem
+  obtain ⟨c, hc, hcp⟩ := List.mem_map.mp hmem
+  unfold loadedCerts at hc
+  split at hc
+  · rename_i hr
+    refine ⟨hr, ?_⟩
+    have hb : ∃ b, (b = tip ∨ b = tip - 1 ∨ b = tip - 2) ∧ start < b ∧ c = (b - 1, just b) := by
+      rcases List.mem_append.mp hc with hc | hc
+      · rcases List.mem_append.mp hc with hc | hc
+        · exact ⟨tip, Or.inl rfl, mem_loadOne _ _ _ _ hc⟩
+        · exact ⟨tip - 1, Or.inr (Or.inl rfl), mem_loadOne _ _ _ _ hc⟩
+      · exact ⟨tip - 2, Or.inr (Or.inr rfl), mem_loadOne _ _ _ _ hc⟩
+    obtain ⟨b, hb1, hb2, hcb⟩ := hb
+    refine ⟨b, hb1, hb2, ?_, ?_⟩
+    · rw [← hid, ← hcp, hcb]
+    · rw [← hpe, ← hcp, hcb]
+  · simp at hc
+
+/-- the certificates of the ledger are clean: valid signatures of distinct members (of every view's set) other
+than the node itself - what an honest collector, this node included, assembles -/
+def CleanCerts (vals : Int → List Nat) (self : Nat) (just : Nat → List Entry) : Prop :=
+  ∀ b, ((just b).map (·.addr)).Nodup ∧ ∀ e ∈ just b, e.valid = true ∧ e.addr ≠ self ∧ ∀ v, e.addr ∈ vals v
+
+/-- The vote log of a collector restarted on a ledger with clean certificates satisfies the invariant, with
+the loaded certificates as the entries held before the history begins. -/
+theorem restart_logOk (vals : Int → List Nat) (self start tip : Nat) (just : Nat → List Entry)
+    (hc : CleanCerts vals self just) :
+    LogOk (loadedFor self start tip just) vals [] (restart self start tip just) := by
+  intro id es hes
+  obtain ⟨hr, b, hb, hsb, hid, hesb⟩ := restart_log_mem self start tip just id es hes
+  obtain ⟨h3, hst, hroot⟩ := restarted_spec start tip hr
+  have hk : id < tip + 1 - rootHeight start tip := by
+    rw [hid, hroot]; unfold relId; split <;> omega
+  refine ⟨_, findNode_range_map _ (fun _ => rfl) _ id hk, ?_, ?_⟩
+  · rw [hesb]; exact (hc b).1
+  · intro e he
+    rw [hesb] at he
+    obtain ⟨h1, h2, h3⟩ := (hc b).2 e he
+    refine ⟨h1, h2, h3 _, ?_⟩
+    apply List.mem_append_left
+    unfold loadedFor
+    rw [hes, hesb]
+    exact he
+
+/-- **Collection-side C14 after a restart.**  For every ledger (StartHeight, tip, clean certificates in its last
+blocks), every validator-set function and every history of proposal and vote messages received after the
+restart: a vote message makes the restarted collector declare a quorum only if the proposal it names is in
+the tree under the view the vote declares and valid signatures over that id come from at least
+`n - ⌊(n-1)/3⌋ - 1` distinct members besides the collector - signatures that arrived, after the restart, as
+first signature of a vote message naming the id, or that the ledger's certificate FOR THAT ID carries. -/
+theorem restart_declared_quorum_is_genuine (vals : Int → List Nat) (self start tip : Nat) (just : Nat → List Entry)
+    (hc : CleanCerts vals self just) (evs : List Ev) (m : VoteMsg)
+    (h : (handleVote vals (run vals (restart self start tip just) evs) m).2.2 = true) :
+    ∃ nd, lookup (run vals (restart self start tip just) evs) m.id = some nd ∧ nd.view = m.view ∧
+      quorum (vals nd.view).length ≤
+        (validMembersBut self (vals nd.view)
+          (loadedFor self start tip just m.id ++ firstSigs m.id (votesOf evs ++ [m]))).length :=
+  declared_quorum_from (loadedFor self start tip just) vals (restart self start tip just)
+    (restart_logOk vals self start tip just hc) evs m h
+
+/-- Nothing is held for the tip block after a restart (its certificate is in no ledger block yet), nor for any
+block above it. -/
+theorem restart_tip_not_loaded (self start tip : Nat) (just : Nat → List Entry) (h : Nat) (hh : tip ≤ h) :
+    loadedFor self start tip just (relId (rootHeight start tip) h) = [] := by
+  unfold loadedFor
+  cases hl : logOf (restart self start tip just).log (relId (rootHeight start tip) h) with
+  | none => rfl
+  | some es =>
+    obtain ⟨hr, b, hb, hsb, hid, _⟩ := restart_log_mem self start tip just _ es hl
+    obtain ⟨h3, _, hroot⟩ := restarted_spec start tip hr
+    rw [hroot] at hid
+    unfold relId at hid
+    split at hid <;> split at hid <;> omega
+
+/-- Hence the quorum a restarted collector declares for its tip block (the block it collects for when it was the
+next leader) rests on votes that arrived after the restart alone: no signature taken from the ledger helps. -/
+theorem restart_tip_quorum_needs_arrived_votes (vals : Int → List Nat) (self start tip : Nat) (just : Nat → List Entry)
+    (hc : CleanCerts vals self just) (evs : List Ev) (m : VoteMsg) (hm : m.id = relId (rootHeight start tip) tip)
+    (h : (handleVote vals (run vals (restart self start tip just) evs) m).2.2 = true) :
+    ∃ nd, lookup (run vals (restart self start tip just) evs) m.id = some nd ∧ nd.view = m.view ∧
+      quorum (vals nd.view).length ≤
+        (validMembersBut self (vals nd.view) (firstSigs m.id (votesOf evs ++ [m]))).length := by
+  obtain ⟨nd, h1, h2, h3⟩ := restart_declared_quorum_is_genuine vals self start tip just hc evs m h
+  refine ⟨nd, h1, h2, ?_⟩
+  rw [hm, restart_tip_not_loaded self start tip just tip (Nat.le_refl _), List.nil_append, ← hm] at h3
+  exact h3
+
 /-! ### non-vacuity -/
 
 -- n = 5, collector 0: the votes of members 1, 2 (delivered twice), 3 — the third distinct voter declares the
@@ -818,5 +1047,20 @@ example :
       .vote ⟨1, 1, [⟨7, true⟩]⟩, .vote ⟨1, 1, [⟨3, false⟩]⟩, .vote ⟨1, 2, [⟨3, true⟩]⟩, .vote ⟨0, 0, [⟨3, true⟩]⟩,
       .vote ⟨1, 1, [⟨2, true⟩]⟩, .vote ⟨1, 1, [⟨1, true⟩]⟩]
     s.high.id = 0 ∧ s.view = 1 ∧ (logOf s.log 1).map (·.map (·.addr)) = some [1, 2] := by decide
+
+-- n = 3, the node is validator 0, ledger 0..4 with StartHeight 1, every justify signed by 1 and 2: after the
+-- restart HighQC is block 3 (id 2), the view 3, the certificates of blocks 1, 2, 3 are held under ids 0, 1, 2,
+-- nothing for the tip (id 3); the tip's proposal arrives again; ONE vote declares nothing, the second one does
+private def three : Int → List Nat := fun _ => [0, 1, 2]
+private def j12 : Nat → List Entry := fun b => if b ≤ 1 then [] else [⟨1, true⟩, ⟨2, true⟩]
+example :
+    let s0 := restart 0 1 4 j12
+    s0.high.id = 2 ∧ s0.view = 3 ∧ s0.genesis = 100 ∧ loadedFor 0 1 4 j12 2 = [⟨1, true⟩, ⟨2, true⟩] ∧ loadedFor 0 1 4 j12 3 = [] ∧
+    (let s := run three s0 [.prop ⟨3, 4, 2, 3, [⟨1, true⟩, ⟨2, true⟩]⟩]
+     (handleVote three s ⟨3, 4, [⟨1, true⟩]⟩).2.2 = false ∧
+     (handleVote three (handleVote three s ⟨3, 4, [⟨1, true⟩]⟩).1 ⟨3, 4, [⟨2, true⟩]⟩).2.2 = true ∧
+     (handleVote three (handleVote three s ⟨3, 4, [⟨1, true⟩]⟩).1 ⟨3, 4, [⟨2, true⟩]⟩).1.high.id = 3) := by decide
+-- the votes for the tip are dropped until its proposal message arrives again (a restarted node knows the root only)
+example : (handleVote three (restart 0 1 4 j12) ⟨3, 4, [⟨1, true⟩]⟩).2.1 = .drop := by decide
 
 end XV.C14c
